@@ -570,7 +570,6 @@ func checkLocation(res *Result, p *Pub, E *Effects, fn *ssa.Function, ff *FuncFa
 	}
 }
 
-
 // The JSON-LD id property keeps an id member that is not an IRI (null, "", a
 // number, an object, a relative reference) as an 'unknown' value: the property
 // is non-nil and Get() is nil. "Usable" therefore needs both tests.
